@@ -21,9 +21,11 @@ G(pid, clause, cond) == cond \/ (TLCSet(1, <<pid, clause>>) /\ FALSE)
 
 Has(ev, f) == f \in DOMAIN ev
 
-RECURSIVE NextResetFrom(_)
-NextResetFrom(j) == IF j > NLines THEN j
-                    ELSE IF TraceLog[j].e = "Reset" THEN j ELSE NextResetFrom(j + 1)
+\* line numbers of the Reset events (a constant of the run: evaluated once)
+ResetLines == {i \in 1..NLines : TraceLog[i].e = "Reset"}
+\* first Reset at or after line j, or one past the end
+NextResetFrom(j) == LET later == {i \in ResetLines : i >= j} IN
+                    IF later = {} THEN NLines + 1 ELSE CHOOSE i \in later : \A k \in later : i <= k
 
 InitDiag == TLCSet(1, <<"?", "?">>)
 
